@@ -142,9 +142,9 @@ def _cases(draw, tier):
             if isinstance(x, dict):
                 return {k: plain(v) for k, v in x.items()}
             if isinstance(x, list):
-                if len(x) == 2 and x[0] == 'lab' and x[1] in table0:
-                    v = table0[x[1]]
-                    return ['neg', ['num', -v, 'dec']] if v < 0 else ['num', v, 'dec']
+                if len(x) == 2 and x[0] == 'lab' and x[1] in table0 and table0[x[1]] >= 0:
+                    # (a negative value stays a named constant: an index position takes a single token)
+                    return ['num', table0[x[1]], 'dec']
                 if len(x) == 3 and x[0] == 'num':
                     return ['num', x[1], 'dec']
                 return [plain(v) for v in x]
